@@ -1,1 +1,85 @@
-import sys; sys.exit(0)
+#!/venv/bin/python
+"""Source fingerprints for the HAND-WRITTEN parts of the model (Prelude/Sem.v: __call__/__eq__/__init__ of every
+predicate class; Lemmas/Std.v: the factories and constants of standard_predicates.py / set_predicates.py).
+Writes Gen/call_tie.json: which classes / definitions no longer have the source text the model was written against.
+./check treats a mismatch that concerns a property's classes as a broken tie for that property.
+
+    gen_extra.py <Gen dir>            compare with tools/py2coq/call_table.json
+    gen_extra.py --update             rewrite the table from the current /repo (done by hand, reviewed, committed)
+"""
+import ast
+import json
+import os
+import sys
+
+sys.path.insert(0, os.path.dirname(__file__))
+from classes import CLASSES, REPO  # noqa: E402
+
+HERE = os.path.dirname(os.path.abspath(__file__))
+TABLE = os.path.join(HERE, "call_table.json")
+STD_FILES = ["predicate/standard_predicates.py", "predicate/set_predicates.py", "predicate/str_predicates.py"]
+
+
+def norm(node) -> str:
+    return " ".join(ast.unparse(node).split())
+
+
+def class_sources():
+    out = {}
+    for cls, (_c, _f, path) in CLASSES.items():
+        tree = ast.parse(open(os.path.join(REPO, path), encoding="utf-8").read())
+        for node in tree.body:
+            if isinstance(node, ast.ClassDef) and node.name == cls:
+                d = {"bases": [norm(b) for b in node.bases], "decorators": [norm(x) for x in node.decorator_list]}
+                for st in node.body:
+                    if isinstance(st, ast.FunctionDef) and st.name in ("__call__", "__eq__", "__init__", "__hash__", "__bool__",
+                                                                        "__len__", "__ne__", "__getattr__", "__post_init__"):
+                        d[st.name] = norm(st)
+                    elif isinstance(st, ast.FunctionDef) and st.name not in ("__repr__",):
+                        d["other:" + st.name] = norm(st)
+                out[cls] = d
+    # the operator overloads of the base class build the connective nodes
+    tree = ast.parse(open(os.path.join(REPO, "predicate/predicate.py"), encoding="utf-8").read())
+    for node in tree.body:
+        if isinstance(node, ast.ClassDef) and node.name == "Predicate":
+            out["Predicate"] = {st.name: norm(st) for st in node.body if isinstance(st, ast.FunctionDef)}
+        if isinstance(node, ast.FunctionDef) and node.name == "resolve_predicate":
+            out["resolve_predicate"] = {"def": norm(node)}
+    return out
+
+
+def std_sources():
+    out = {}
+    for path in STD_FILES:
+        tree = ast.parse(open(os.path.join(REPO, path), encoding="utf-8").read())
+        for node in tree.body:
+            if isinstance(node, ast.FunctionDef):
+                body = [s for s in node.body if not (isinstance(s, ast.Expr) and isinstance(s.value, ast.Constant))]
+                out[f"{path}:{node.name}"] = " ; ".join(norm(s) for s in body) + " | args: " + norm(node.args)
+            elif isinstance(node, (ast.Assign, ast.AnnAssign)):
+                out[f"{path}:{norm(node.targets[0] if isinstance(node, ast.Assign) else node.target)}"] = norm(node)
+    return out
+
+
+def main():
+    cur = {"classes": class_sources(), "std": std_sources()}
+    if len(sys.argv) > 1 and sys.argv[1] == "--update":
+        json.dump(cur, open(TABLE, "w"), indent=1, sort_keys=True)
+        print("call_table.json updated:", len(cur["classes"]), "classes,", len(cur["std"]), "definitions")
+        return
+    outdir = sys.argv[1]
+    want = json.load(open(TABLE))
+    bad_cls = sorted(c for c in set(want["classes"]) | set(cur["classes"]) if want["classes"].get(c) != cur["classes"].get(c))
+    bad_std = sorted(c for c in set(want["std"]) | set(cur["std"]) if want["std"].get(c) != cur["std"].get(c))
+    detail = {}
+    for c in bad_cls:
+        w, g = want["classes"].get(c, {}), cur["classes"].get(c, {})
+        detail[c] = {k: {"model_written_against": w.get(k), "source_now": g.get(k)} for k in set(w) | set(g) if w.get(k) != g.get(k)}
+    for c in bad_std:
+        detail[c] = {"model_written_against": want["std"].get(c), "source_now": cur["std"].get(c)}
+    json.dump({"changed_classes": bad_cls, "changed_std": bad_std, "detail": detail}, open(os.path.join(outdir, "call_tie.json"), "w"), indent=1)
+    print("call tie: changed classes", bad_cls, "changed std", bad_std)
+
+
+if __name__ == "__main__":
+    main()
